@@ -431,6 +431,15 @@ Theorem payload_one_bad_entry_rejects : forall aid l p k e i a,
   spec_update aid l p = Err FormatError.
 Proof. exact update_reject_lemma. Qed.
 
+(* One thread, many calls: the ambient decimal context (signal flags left behind by
+   earlier calls - a rejected "abc" leaves InvalidOperation -, traps / precision /
+   rounding / exponent limits set by the caller) is carried through the history
+   and never consulted: every call gives what it gives on its own.  (The model is
+   a pure function of (metadata, value); harness stream `ambient` checks the code
+   against that under 46 states of the real context.) *)
+Theorem thread_context_irrelevant : forall h a, arun a h = acalls h.
+Proof. exact ambient_lemma. Qed.
+
 (* non-vacuity: the history of seed C14-G (27.26 with 10..38 step 0.5, limits
    re-declared to 10..25 step 0.1, 27.26 and 22.26 again) with a report in
    between, and a two-entry payload *)
@@ -485,3 +494,4 @@ Print Assumptions bounded_fix_refines.
 Print Assumptions overflow_meaning.
 Print Assumptions shortcuts_are_exact.
 Print Assumptions frac_six_digits_model.
+Print Assumptions thread_context_irrelevant.
